@@ -62,6 +62,15 @@ def catalogue(tier, lazy_share=True):
     """All scenarios of the tier as Scenario objects, cheapest first within a round-robin order."""
     small = ["t1", "t12", "t2l", "t3", "gui", "getnoop", "connect"]
     scenarios = []
+    # other vm variants and extra parameters (few, the variety is in the worker sets below)
+    fedora = dict(DEFAULT_VMS, vm1="only Fedora\n")
+    for ws_name, nets in (("w1", "net1"), ("w2", "net1 net2"), ("cc", "cluster1.net6 cluster2.net6")):
+        scenarios.append((f"t3-fedora/{ws_name}", simmod.Scenario("normal&tutorial3", fedora, nets, lazy=False)))
+        scenarios.append((f"t12-fedora/{ws_name}", simmod.Scenario("normal&tutorial1,tutorial2", fedora, nets, lazy=False)))
+        # a test that sets a reusable vm state and a removable image state of the same vm
+        scenarios.append((f"gui-vmstate/{ws_name}", simmod.Scenario(
+            "leaves&tutorial_gui", dict(DEFAULT_VMS), nets, lazy=False, extra={"set_state_vms_vm2": "guirunning"})))
+    scenarios.append(("t3-fedora/w2/lazy", simmod.Scenario("normal&tutorial3", fedora, "net1 net2", lazy=True)))
     for sel_name, selection in SELECTIONS:
         for ws_name, nets in WORKER_SETS:
             big = sel_name not in small
@@ -200,7 +209,11 @@ def schedule(draw, info, bias):
     fail_mode = draw(st.sampled_from(bias.get("fail_modes", ["none", "none", "some", "some", "always"])))
     outcomes = ["PASS"]
     always_fail = {}
-    alphabet = bias.get("alphabet", ["FAIL", "ERROR", "WARN", "SKIP", "CANCEL", "INTERRUPTED", "NEVER"])
+    alphabet = list(bias.get("alphabet", ["FAIL", "ERROR", "WARN", "SKIP", "CANCEL", "INTERRUPTED", "NEVER"]))
+    # a result that is never reported keeps its node occupied for the 300 s result wait, far beyond the timeout;
+    # where the property presupposes that no test overruns, such outcomes are only drawn for single-worker runs
+    if bias.get("never") == "single" and len(info["workers"]) == 1 and "NEVER" not in alphabet:
+        alphabet.append("NEVER")
     if fail_mode == "some":
         m = draw(st.sampled_from([4, 8, 16]))
         outcomes = draw(st.lists(st.sampled_from(["PASS", "PASS", "PASS"] + alphabet), min_size=m, max_size=m))
@@ -604,6 +617,15 @@ def compute_removable(sim):
 
 def oracle_c08(sim, case):
     shared_location = ":" + simmod.SHARED_POOL
+    for event in sim.events:
+        if event["kind"] in ("door", "start") and event.get("endpoint") and event.get("worker") in sim.workers:
+            wparams = sim.workers[event["worker"]]["params"]
+            expected = f"{wparams.get('nets_shell_host')}:{wparams.get('nets_shell_port')}"
+            if event["endpoint"] != expected:
+                what = "state control" if event["kind"] == "door" else "test execution"
+                yield Violation({"oracle": "session-of-another-worker", "what": what},
+                                f"{what} of {event['worker']} ({expected}) went through a session to {event['endpoint']}\n"
+                                + brief(sim), case)
     passed = {}   # state key -> workers with a PASS result of a producer so far
     warned = {}
     end_by_start = {e["start"]: e for e in sim.ends()}
@@ -798,7 +820,7 @@ NONTRIVIAL = {
 }
 
 
-def make_run(prop, bias, scenario_filter=None, quick_cases=480, thorough_cases=16000, per_shard_scenarios=(3, 10)):
+def make_run(prop, bias, scenario_filter=None, quick_cases=1280, thorough_cases=32000, per_shard_scenarios=(4, 12)):
     def run(ctx):
         simmod.setup()
         items = catalogue(ctx.tier)
@@ -909,7 +931,7 @@ ASSUMPTIONS = [
 BIASES = {
     "C01": {"dry_run": False},
     "C02": {"dry_run": True},
-    "C03": {"dry_run": False, "fail_modes": ["none", "none", "none", "some"],
+    "C03": {"dry_run": False, "fail_modes": ["none", "none", "some", "some", "always"], "never": "single",
             "alphabet": ["FAIL", "ERROR", "WARN", "SKIP", "CANCEL", "INTERRUPTED"]},
     "C04": {"dry_run": False, "durations": ["0.1T", "0.1T", "0.3T", "0.3T", "0.5T", "0.5T", "0.99T", "0.2T", "0.6T"],
             "fail_modes": ["none", "none", "some"], "alphabet": ["FAIL", "ERROR", "WARN", "SKIP"]},
@@ -919,6 +941,7 @@ BIASES = {
 }
 DRIVER_ARGS = {
     "C04": {"scenario_filter": lambda name, scenario: len(scenario.nets.split()) >= 2},
-    "C05": {"scenario_filter": lambda name, scenario: any(k in name for k in ("gui", "get", "finale"))},
+    "C05": {"scenario_filter": lambda name, scenario: any(k in name for k in ("gui", "get", "finale")),
+            "quick_cases": 640},
     "C08": {"scenario_filter": lambda name, scenario: len(scenario.nets.split()) >= 2},
 }
